@@ -360,9 +360,13 @@ def observe(neighbor, neg, enc, body, preload=None, repeat=False):
     coll = m if m.IS_EOR else m.data
     js = enc.update(neighbor, 'receive', coll, b'', b'', neg)
     msg = json.loads(js)['neighbor']['message']
-    if not m.IS_EOR:
-        for _ in handler.handle(ctx, m):
-            pass
+    # the peer loop hands every message of type UPDATE to the handler, End-of-RIB markers included (both entry points)
+    for _ in handler.handle(ctx, m):
+        pass
+    if m.IS_EOR:
+        import asyncio
+
+        asyncio.new_event_loop().run_until_complete(handler.handle_async(ctx, m))
     table = {}
     for r in rib.cached_routes():
         j = json.loads(r.nlri.json()) if r.nlri.json().lstrip().startswith('{') else json.loads('{' + r.nlri.json() + '}')
@@ -652,7 +656,10 @@ def replay(case):
     if 'eor' in case:
         for name, body, fam in eor_cases():
             if name == case['eor']:
-                msg, table, is_eor = observe(n, neg, enc, body)
+                try:
+                    msg, table, is_eor = observe(n, neg, enc, body)
+                except Exception as e:  # noqa: BLE001
+                    return [{'signature': f'eor-exception:{type(e).__name__}', 'what': f'{name}: {e}'}]
                 got = msg.get('eor')
                 ok = is_eor and got is not None and NAMEFAM.get(f'{got.get("afi")} {got.get("safi")}') == fam
                 return [] if ok else [{'signature': f'eor:{name}', 'what': str(msg)}]
